@@ -97,7 +97,12 @@ CLAIMED["C15"] = dict(
          "the model's trace (C15_trace_monitor). Hypothesis: open()/close() are not issued while another close() is in progress "
          "(a second concurrent close() returns at once - proved counterexample closedNow_needs_discipline, see DESIGN.md). Recorded "
          "runs (close at an arbitrary point of outage/steady/fault scripts, 1000 s idle, census of tasks, timers and transports, "
-         "optional re-open with probes) are judged by the monitor and replayed against the model.",
+         "optional re-open with probes) are judged by the monitor and replayed against the model. "
+         "Props/C15Session.lean (model Model/Session.lean: handshake handlers suspended in an application callback across shutdown() and a "
+         "later init()): after shutdown() every suspended handler is stale for ever and its release is inert, and any later op sequence "
+         "gives op by op the outputs of a fresh object (C15S_reinit_like_fresh, simulation + induction over the ops); the state-only "
+         "re-check of the code before /repo ced1c59 is refuted (C15S_old_guard_refuted); tie: the real AirTouch 4 / 5 objects over a stub "
+         "socket, op by op (harness/sessharness.py).",
     design_ref="DESIGN.md section 7, C15",
     technique="Lean 4 proof (closed-state invariant + one-step quietness over all schedules) + trace validation + census monitor on recorded runs",
     note=SOCK_NOTE + "API level: shutdown() of the real AirTouch4 / AirTouch5 object over the real socket is issued k loop passes after EVERY network "
